@@ -592,6 +592,19 @@ func c05IDFresh(r *core.Run) {
 				}
 				seen[v] = true
 				switch x := v.(type) {
+				case *ssa.Parameter:
+					// a helper that formats the ID: look at what its callers pass
+					for i, prm := range x.Parent().Params {
+						if prm != x {
+							continue
+						}
+						for _, site := range callersOf(p, x.Parent()) {
+							if args := core.CallArgs(site.Common()); i < len(args) {
+								walk(args[i], d+1)
+							}
+						}
+					}
+					return
 				case *ssa.Phi:
 					if core.LoopHeaderOf(x.Block()) == x.Block() || core.LoopHeaderOf(x.Block()) != nil {
 						perIter = true
